@@ -82,7 +82,7 @@ pub fn all() -> Vec<PropDef> {
         },
         PropDef {
             id: "C18",
-            rule: "exhaustive: every string over {r,#,a,Z,_,0,9,space,:,-,e-acute,NUL} up to length 6 (thorough: 7) as a single segment; proptest: segment lists of valid identifiers and near misses, module paths and replacement tables; oracle = explicit DFA for (r#)?[A-Za-z_][A-Za-z0-9_]* and list semantics; non-trivial = string of length >= 2 / list of >= 2 segments",
+            rule: "exhaustive: every string over {r,#,a,Z,_,0,9,space,:,-,e-acute,NUL} up to length 6 (thorough: 7), and every string over all 128 ASCII bytes up to length 3 plain and behind r#, each as a single segment; proptest: segment lists of valid identifiers and near misses, module paths and replacement tables; oracle = explicit DFA for (r#)?[A-Za-z_][A-Za-z0-9_]* and list semantics; non-trivial = string of length >= 2 / list of >= 2 segments",
             assumptions: &["replacement tables have distinct search keys; a replacement may equal another search key, and following the documentation (every search item that appears in the module path is replaced) rules are expected not to chain", "module paths are non-empty and their segments contain no ':'"],
             subs: || {
                 let mut v = crate::p_path::c18_subs();
@@ -132,6 +132,25 @@ fn c18_extra(ctx: &Ctx, ev: &mut Evidence) -> Result<(), String> {
     }
     for (k, n) in r.known {
         *ev.stats.excluded_known.entry(k).or_default() += n;
+    }
+    // second enumeration: the full ASCII range, length <= 3, plain and raw-prefixed
+    let r2 = crate::p_path::exhaustive_ascii(ctx);
+    ev.stats.evaluations += r2.evaluated;
+    ev.extra_distinct += r2.nontrivial;
+    ev.extra.insert("exhaustive_ascii".into(), serde_json::json!({"alphabet": "all 128 ASCII bytes", "max_len": 3, "also_with_raw_prefix": true, "evaluated": r2.evaluated, "accepted_by_reference": r2.accepted}));
+    for s in r2.samples {
+        if ev.stats.samples.len() < 12 {
+            ev.stats.samples.push(s)
+        }
+    }
+    for (k, n) in r2.known {
+        *ev.stats.excluded_known.entry(k).or_default() += n;
+    }
+    if let Some((s, reason)) = r2.failure {
+        let f = Failure { sub: "exhaustive".into(), reason: reason.clone(), case: serde_json::json!({"segs": [s]}) };
+        let p = write_replay("C18", &f);
+        eprintln!("  exhaustive (ASCII) FAILED: {reason}");
+        ev.violations.push((reason, p));
     }
     ev.exhaustive = false; // exhaustive only within the stated alphabet/length: said in the rule
     if let Some((s, reason)) = r.failure {
